@@ -6,10 +6,12 @@
                depend on each other only through the call graph of the functions (chains, recursion,
                mutual recursion), which is where the sort has to follow dependencies transitively.
    One state per graph (edges are added in increasing code order, so every graph is generated once).
-   Every graph is exported with its dependencies mentioned in ascending order and, when some node has
-   two dependencies or more, a second time in descending order (rev = 1). *)
+   Every graph is exported with the textual orders in which the driver is to write it: dependencies
+   mentioned in ascending node order (0) and, when BothOrders = 1 and some node has two dependencies
+   or more, also in descending order (1); the invariants check the transcribed algorithm under both
+   orders in any case. *)
 EXTENDS InitOrder, TLC, Json, SequencesExt
-CONSTANTS NV, NF, MaxEdges, Thru
+CONSTANTS NV, NF, MaxEdges, Thru, BothOrders
 N == NV + NF
 Codes == IF Thru = 1 THEN ThruCodes(NV, N) ELSE AllCodes(N)
 VARIABLE es          \* increasing sequence of indexes into Codes
@@ -17,15 +19,18 @@ Init == es = <<>>
 Next == /\ Len(es) < MaxEdges
         /\ \E e \in (IF es = <<>> THEN 1 ELSE es[Len(es)] + 1)..Len(Codes) : es' = Append(es, e)
 EdgeCodes(s) == [q \in 1..Len(s) |-> Codes[s[q]]]
-MeetsRef(d) == ImplOutcomeIO(d, NV) = RefOutcomeIO(d, NV)
-ImplMeetsRef == LET c == EdgeCodes(es) IN MeetsRef(DepsOf(c, N)) /\ MeetsRef(DepsOfRev(c, N))
+\* the graph of the state, with the dependencies mentioned in ascending and in descending order
+MeetsRef(d, ref) == ImplOutcomeIO(d, NV) = ref /\ ImplOutcomeIO([n \in 1..N |-> IoReverse(d[n])], NV) = ref
+MeetsRefD(d) == MeetsRef(d, RefOutcomeIO(d, NV))
+ImplMeetsRef == MeetsRefD(DepsOf(EdgeCodes(es), N))
 \* sanity of the reference: when no variable depends on itself, every variable gets initialised exactly once
-RefTotal == LET d == DepsOf(EdgeCodes(es), N) IN ~RefCyclic(d, NV) => (Len(RefOrder(d, NV)) = NV /\ Cardinality(IoRange(RefOrder(d, NV))) = NV)
-\* (helpers with arguments: TLC evaluates an argument once, a definition of a module with CONSTANTS at every use)
-CasesFwd(G, codes) == [i \in 1..Len(G) |-> [id |-> i, fam |-> "initorder", nv |-> NV, nf |-> NF, rev |-> 0,
-                                             deps |-> DepsOf([q \in 1..Len(G[i]) |-> codes[G[i][q]]], N)]] \o <<>>
-CasesRev(two, base) == [i \in 1..Len(two) |-> [two[i] EXCEPT !.id = base + i, !.rev = 1, !.deps = [n \in 1..N |-> IoReverse(two[i].deps[n])]]]
-CasesBoth(fwd) == fwd \o CasesRev(SelectSeq(fwd, LAMBDA c : \E n \in 1..N : Len(c.deps[n]) >= 2), Len(fwd))
-Cases == CasesBoth(CasesFwd(IncSeqs(1, Len(Codes), MaxEdges), Codes))
-ASSUME ndJsonSerialize("cases.ndjson", Cases)
+Total(ref) == ~ref.cyc => (Len(ref.order) = NV /\ Cardinality(IoRange(ref.order)) = NV)
+RefTotal == Total(RefOutcomeIO(DepsOf(EdgeCodes(es), N), NV))
+\* (operators with arguments: TLC evaluates an argument once, a definition of a module with CONSTANTS at every use
+\*  - and a zero-argument Cases would be evaluated a second time at start-up)
+CasesOf(G, codes) == [i \in 1..Len(G) |->
+                        LET d == DepsOf([q \in 1..Len(G[i]) |-> codes[G[i][q]]], N) IN
+                        [id |-> i, fam |-> "initorder", nv |-> NV, nf |-> NF, deps |-> d,
+                         orders |-> IF BothOrders = 1 /\ \E n \in 1..N : Len(d[n]) >= 2 THEN <<0, 1>> ELSE <<0>>]]
+ASSUME ndJsonSerialize("cases.ndjson", CasesOf(IncSeqs(1, Len(Codes), MaxEdges), Codes))
 =============================================================================
